@@ -30,8 +30,14 @@ driver_open_device(struct Driver* driver,
     CHECK(Device_Ok == driver->open(driver, device_id, out));
 
     CHECK(*out);
-    CHECK(Device_Ok ==
-          driver->describe(driver, &out[0]->identifier, device_id));
+    if (Device_Ok !=
+        driver->describe(driver, &out[0]->identifier, device_id)) {
+        LOGE("Failed to describe device %d. Closing it.", (int)device_id);
+        // The caller never sees this device: hand it back to the driver.
+        driver->close(driver, *out);
+        *out = 0;
+        goto Error;
+    }
     (*out)->driver = driver;
     return Device_Ok;
 Error:
